@@ -19,5 +19,6 @@ open Cascette.Props.C02
 #print axioms tvfs_nest_600_refused
 #print axioms shmem_pid_no_panic_alloc_bounded
 #print axioms idx_no_panic_alloc_bounded_loop_advances
-#print axioms aidx_footer_panics
+#print axioms aidx_footer_no_panic
+#print axioms aidx_footer_former_witness_rejected
 #print axioms aidx_footer_no_panic_partial
